@@ -5,7 +5,8 @@ import hir as H
 import mir as M
 import rulelib as L
 import spec_tables as S
-from c08 import char_ranges, format_calls
+from c08 import format_calls
+import charpred as CP
 
 CRATES = ["identity_did"]
 DID = "identity_did::did::CoreDID"
@@ -20,39 +21,9 @@ SUB_DELIMS = {ord(c) for c in "!$&'()*+,;="}
 PCHAR = UNRESERVED | SUB_DELIMS | {ord(":"), ord("@")}
 
 
-def char_pred_set(F, fn, depth=0):
-    """Set of code points accepted by a `const fn is_char_*(ch: char) -> bool` built from matches!/==/|| and calls to sibling predicates."""
-    h = F.hir(fn)
-    if h is None or depth > 4:
-        return None
-    out = set()
-    body = H.strip(H.root(h))
-    for d in H.disjuncts(body):
-        d = H.strip(d)
-        k = d.get("k")
-        if k == "call" and d.get("fn") and not d.get("ctor"):
-            sub = char_pred_set(F, d["fn"], depth + 1)
-            if sub is None:
-                return None
-            out |= sub
-        elif k == "match":
-            pos = [a for a in d["arms"] if H.literals(a["body"]) == [True]]
-            neg = [a for a in d["arms"] if H.literals(a["body"]) == [False]]
-            if len(pos) != 1 or len(neg) != 1 or H.pat_str(neg[0]["pat"]) != "_":
-                return None
-            r = char_ranges(pos[0]["pat"])
-            if r is None:
-                return None
-            out |= r
-        elif k == "binary" and d.get("op") == "Eq":
-            lits = [x for x in H.literals(d) if isinstance(x, str) and len(x) == 1]
-            ints = [x["v"]["int"] for x in H.walk(d) if x.get("k") == "lit" and "char" in x.get("v", {})]
-            if not ints:
-                return None
-            out |= set(ints)
-        else:
-            return None
-    return out
+def char_pred_set(F, fn):
+    """Set of code points accepted by `fn(ch: char) -> bool`, by finite-domain folding (charpred); (None, reason) when not foldable."""
+    return CP.fn_accepted_set(F, fn)
 
 
 def run(F, R, tier):
@@ -337,8 +308,8 @@ def run(F, R, tier):
         MOD + "::is_char_fragment": (PCHAR | {ord("/"), ord("?")}, "pchar / '/' / '?'"),
     }
     for fn, (w, desc) in want_sets.items():
-        got = char_pred_set(F, fn)
-        if not r6.require(got is not None, (fn, "not-extractable"), "%s is no longer a disjunction of matches!/==/sibling predicates; cannot compare it with the specification" % L.short(fn)):
+        got, why = char_pred_set(F, fn)
+        if not r6.require(got is not None, (fn, "not-extractable"), "%s cannot be folded over the code-point domain (%s); cannot compare it with the specification" % (L.short(fn), why)):
             continue
         r6.site("%s accepts %d code points (%s)" % (L.short(fn), len(got), desc))
         extra = sorted(got - w)
